@@ -26,7 +26,7 @@ STUBS = pc.STUBS_PIPE + ["traceback.print_exc in synrbl.balancing -> no-op (form
 ASSUMPTIONS = STUBS
 BOUNDS = [
     "batching kernel: n <= 6 opaque items, batch_size 1..n+1 (symbolic)",
-    "rows: n <= 3 (quick: n <= 2 and n = 3 with a valid first row); each row symbolically one of 10 classes {valid, unparsable side, no '>>', 'A>B>C', empty string, empty product side, two '>>', missing value (None), valid rule-solvable, duplicate of row 0}; batch_size symbolic in 1..n+1 or None; input as list of str, list of dict (with a pass-through column, with or without an own 'id' column) or Dataset",
+    "rows: n <= 3 (quick: n <= 2 and n = 3 with a valid first row); each row symbolically one of 11 classes {valid, unparsable side, no '>>', 'A>B>C', empty string, empty product side, two '>>', missing value (None), valid rule-solvable, duplicate of row 0, atom-mapped}; batch_size symbolic in 1..n+1 or None; input as list of str, list of dict (with a pass-through column, with or without an own 'id' column) or Dataset",
 ]
 OUTSIDE = pc.OUTSIDE_PIPE + ["CSV/JSON file readers and the CLI (file I/O on concrete data): the CLI column alignment is the consequence zip(inputs, outputs) of the row-count claim and inherits its findings"]
 EXPLANATION = (
@@ -37,7 +37,7 @@ EXPLANATION = (
 )
 
 TOK = ("j", "q", "w")
-NCLASS = 10
+NCLASS = 11
 
 
 def row_text(cls, t):
@@ -57,6 +57,8 @@ def row_text(cls, t):
         return t + ">>" + t + ">>" + t
     if cls == 7:
         return None
+    if cls == 10:
+        return t + ".[OH2:7]>>" + t + ".[OH2:7]"  # valid, atom-mapped (water carries a map number)
     if cls == 9:
         return TOK[0] + ">>" + TOK[0]  # the same reaction as a valid row 0 (duplicate inside the batch)
     return t + ">>" + t + ".O"  # valid and unbalanced (water on the product side): completed by the rule-based stage
@@ -134,6 +136,12 @@ def h_rows(k0: int, k1: int, k2: int, bs: int) -> bool:
     if len(out) != len(expect):
         return False
     for row, i in zip(out, expect):
+        if ks[i] == 10:
+            # map numbers are removed from what is reported (C15: outputs never contain atom-map numbers)
+            clean = TOK[i] + ".O>>" + TOK[i] + ".O"
+            if row.get("input_reaction") != clean or row["reaction"] != clean or not row["solved"]:
+                return False
+            continue
         if row.get("input_reaction") != texts[i]:
             return False
         # each row describes that input: a balanced row is returned as given, the water-deficient row gets its water
@@ -186,7 +194,7 @@ def plan(tier):
         for k0 in range(NCLASS):
             if form == "str" and k0 == 7:
                 continue
-            if tier != "thorough" and form != "dict" and k0 not in (0, 1, 2, 8):
+            if tier != "thorough" and form != "dict" and k0 not in (0, 1, 2, 8, 10):
                 continue
             P.append(Part(H + "h_rows", {"n": 2, "form": form, "fix": {"k0": k0}}, "rows[n=2,%s,k0=%d]" % (form, k0), group="rows", timeout=900))
     if tier == "thorough":
